@@ -330,6 +330,8 @@ def project_coverage(prop, tier, stats, nruns, other, samples, pstats, wall, kno
         "faults_fired_by_kind_and_seam": stats.get("faults_fired", {}),
         "faults_fired_with_write_in_flight": stats.get("faults_with_write_in_flight", 0),
         "faults_planned_but_not_fired": stats.get("faults_not_fired", 0),
+        "fault_sequences": {"planned": stats.get("fault_sequences_planned", 0), "second_fault_fired": stats.get("second_faults_fired", 0),
+                            "note": "a second fault fires only if the code writes again after the first one (an error handler, a retry)"},
         "cells": cells,
         "prestate_cells": stats.get("prestate_cells", {}),
         "probes": {k: stats.get(k, 0) for k in ("r3_checked", "r4_checked", "a2_checked", "c11_checked", "sp_checked", "twin_checks", "gen_ops",
